@@ -112,15 +112,7 @@ def generate(seed, tier="quick"):
     return {"program": prog, "approved": approved, "driver": driver, "fmt": draw_fmt(sub(seed, "fmt")), "kinds": kinds}
 
 
-def exc_signature(tb):
-    """'<ExcType>@<innermost inline_snapshot function>' from a traceback text"""
-    tb = tb or ""
-    m = re.findall(r'File "[^"]*inline_snapshot/([^"]+)", line \d+, in (\w+)', tb)
-    last = tb.strip().splitlines()[-1] if tb.strip() else ""
-    et = re.match(r"([A-Za-z_.]+)", last)
-    name = et.group(1).split(".")[-1] if et else "Exception"
-    where = f"{m[-1][0].split('/')[-1]}:{m[-1][1]}" if m else "?"
-    return f"{name}@{where}"
+exc_signature = sim.exc_signature
 
 
 def nested_spans(text):
